@@ -59,7 +59,7 @@ PLAN = {
         "mc_quick": ["CfgsQ1", "CfgsQ2"],
         "vacuity": [("DevLimit", "CfgsQ1", "ConnLimit")],
         "scen_quick": ["h1-max1-AAB", "h1-max2-AAAA", "h1-max1-close", "h1-guess-max1", "h1-retries-max1-AA", "h2-max1-AAB"],
-        "scen_thorough": ["h1-max1-AAB", "h1-max2-AAAA", "h1-max1-close", "h1-guess-max1", "h1-guess-max2", "h1-max3-ABCAB", "h1-max2-ABC-keep0", "h1-max2-ABA-keep1", "h1-tls-max1-AAB", "h1-max1-abandon", "h1-retries-max1-AA", "h1-retries-max2-AB", "h2-max1-AAB", "h2-max1-BAB", "tun-max1-AAB", "socks-max1-AAB"],
+        "scen_thorough": ["h1-max1-AAB", "h1-max2-AAAA", "h1-max1-close", "h1-guess-max1", "h1-guess-max2", "h1-max3-ABCAB", "h1-max2-ABC-keep0", "h1-max2-ABA-keep1", "h1-tls-max1-AAB", "h1-max1-abandon", "h1-retries-max1-AA", "h1-retries-max2-AB", "h2-max1-AAB", "h2-max1-BAB", "tun-max1-AAB", "socks-max1-AAB", "h2-alpn-max1-AAB", "h2-alpn-max2-AAAB"],
         "strategies": ["base", "dfs", "fault", "cancel-scope", "late", "late+fault"],
     },
     "C05": {
@@ -90,7 +90,7 @@ PLAN = {
         "live": "CfgsL1",
         "vacuity": [("DevNoPass", "CfgsQ1", "NoServiceableWaiter")],
         "scen_quick": ["h1-max1-AAB", "h1-max1-pto", "h1-guess-max1", "h2-max1-BAB"],
-        "scen_thorough": ["h1-max1-AAB", "h1-max1-pto", "h1-max1-pto-AB", "h1-guess-max1", "h1-guess-max2", "h1-max2-AAAA", "h1-max1-close", "h1-max1-abandon", "h1-max3-ABCAB", "h2-max1-BAB", "h2-max1-AAB", "fwd-max1-AAB", "tun-max1-AAB"],
+        "scen_thorough": ["h1-max1-AAB", "h1-max1-pto", "h1-max1-pto-AB", "h1-guess-max1", "h1-guess-max2", "h1-max2-AAAA", "h1-max1-close", "h1-max1-abandon", "h1-max3-ABCAB", "h2-max1-BAB", "h2-max1-AAB", "fwd-max1-AAB", "tun-max1-AAB", "h2-alpn-max2-AAAB"],
         "strategies": ["base", "dfs", "fault", "cancel-scope"],
     },
     "C01": {
@@ -110,7 +110,7 @@ PLAN = {
         "mc_quick": [("CfgsQ1", {"maxclock": 1}), ("CfgsQ3a", {})],
         "vacuity": [],
         "scen_quick": ["h1-max1-AAB", "h1-guess-max1", "h1-retries-max1-AA", "h1-max1-early", "h2-max1-AA"],
-        "scen_thorough": ["h1-max1-AAB", "h1-guess-max1", "h1-guess-max2", "h1-retries-max1-AA", "h1-retries-max2-AB", "h1-max1-early", "h1-max1-close", "h1-max2-AAAA", "h2-max1-AA", "h2-max1-AAB"],
+        "scen_thorough": ["h1-max1-AAB", "h1-guess-max1", "h1-guess-max2", "h1-retries-max1-AA", "h1-retries-max2-AB", "h1-max1-early", "h1-max1-close", "h1-max2-AAAA", "h2-max1-AA", "h2-max1-AAB", "h2-alpn-max1-AAB"],
         "strategies": ["base", "dfs", "fault"],
     },
     "C10": {
@@ -120,7 +120,7 @@ PLAN = {
         "mc_quick": [("CfgsQ2", {"faults": 0, "maxclock": 0})],
         "vacuity": [],
         "scen_quick": ["h1-origins-port", "h1-origins-scheme", "h1-origins-host"],
-        "scen_thorough": ["h1-origins-port", "h1-origins-scheme", "h1-origins-host"],
+        "scen_thorough": ["h1-origins-port", "h1-origins-scheme", "h1-origins-host", "h2-alpn-max1-AAB"],
         "strategies": ["base", "dfs", "sequential"],
     },
     "C16": {
